@@ -23,7 +23,7 @@ def _add(pid, *, rule, required, floor, text, technique, assumptions=(), exhaust
 _add(
     "C01",
     rule="inductive sweep: every single public operation (offsets 0..2N, lengths 1..N, fwd/bwd, int / uniform-tensor / per-element-distinct-tensor offset, inplace/not, same/foreign obs dtype) applied to a freshly id-filled ring for N in 1..4 x every pointer x {buffer, Parameter, None} storage, plus sampled 2-3 op compositions and random 50-300 op histories (N<=30, shapes up to 3-D, float32/float64/int64/bool); one evaluation = one operation applied and judged (return value + full state read back through read(k) and through storage). A case is non-trivial unless it is incr/decr by 0; distinct = distinct (op, N, pointer, storage, dtype, offset class, length class, direction, offset kind, inplace, foreign dtype) abstractions.",
-    required=["state_readbacks", "invariant_evaluations", "ops.readrange", "ops.writerange", "ops.push", "autocreate_checked"],
+    required=["state_readbacks", "invariant_evaluations", "ops.readrange", "ops.writerange", "ops.push", "autocreate_checked", "range_ops_with_narrow_integer_offset_tensors"],
     floor={"quick": 500, "thorough": 1500},
     text="Held on every execution explored: each public RecordTensor operation is applied to the real class and judged, with a full state read-back, against an independent list-of-observations model using unique-id values; the single-operation x pointer x storage-kind space is enumerated completely for N<=4, longer histories are sampled. Exploration is the right level: the property is over all histories and a monitor decides only those produced.",
     technique="runtime monitoring: reference-model (list ring) monitor + icontract class invariant on the real RecordTensor, exhaustive single-op sweep N<=4 plus random histories",
